@@ -157,7 +157,8 @@ type State struct {
 	fr           *Frame
 	heaps        map[string]Term
 	top          Term
-	heapTop      map[string]Term // allocation frontier when the heap key was last written
+	heapTop      map[string]Term            // allocation frontier when the heap key was last written
+	fwd          map[string]map[string]Term // store-to-load forwarding: key -> ref term -> last stored value
 	assume       *alist
 	ghost        map[string]Term
 	held         []heldLock
@@ -178,6 +179,14 @@ func (s *State) clone() *State {
 	t.heaps = make(map[string]Term, len(s.heaps))
 	for k, v := range s.heaps {
 		t.heaps[k] = v
+	}
+	t.fwd = make(map[string]map[string]Term, len(s.fwd))
+	for k, m := range s.fwd {
+		c := make(map[string]Term, len(m))
+		for r, v := range m {
+			c[r] = v
+		}
+		t.fwd[k] = c
 	}
 	t.heapTop = make(map[string]Term, len(s.heapTop))
 	for k, v := range s.heapTop {
